@@ -494,6 +494,53 @@ def case_pf_forward_variance(H, f32=False):
         H.notes.append('%s path %d: %d rounding variables' % (name, H.paths, len(ctx.deltas)))
 
 
+def case_pf_likelihood(H):
+    """the importance weights of the documented particle model: PF.relative_likelihood(y, ye, R) must be the normalised Gaussian
+    likelihoods N(y; ye_i, R) - for a NON-diagonal R: log(q_0 / q_1) = -1/2 (e_0^T R^-1 e_0 - e_1^T R^-1 e_1), e_i = y - ye_i.
+    Observed through the arguments of the two exponentials of the softmax."""
+    name = 'C13/PF/relative_likelihood/non-diagonal-R'
+    R = torch.tensor([[2.0, 0.6], [0.6, 1.0]], dtype=DT)
+    Ri = torch.linalg.inv(R)
+
+    class Dummy(pp.module.NLS):
+        pass
+
+    def prog(m):
+        ye = torch.randn(2, 2, dtype=DT)
+        y = torch.randn(2, dtype=DT)
+        yes, ys = m.symbolic(ye, 'e'), m.symbolic(y, 'y')
+        pf = pp.module.PF(Dummy(), particles=2)
+        q = pf.relative_likelihood(y, ye, R)
+        args = [a for (fn, a, v) in m.ctx.tfvar.values() if fn == 'exp']
+        return m.full_terms(q), args, yes, ys
+
+    def replay(model):
+        ye = tensor_from_env(['e%d' % i for i in range(4)], model).view(2, 2)
+        y = tensor_from_env(['y0', 'y1'], model)
+        if float(ye.abs().sum()) == 0:
+            ye, y = torch.tensor([[0.3, -0.2], [1.1, 0.4]], dtype=DT), torch.tensor([0.5, 0.9], dtype=DT)
+        q = pp.module.PF(Dummy(), particles=2).relative_likelihood(y, ye, R)
+        d = y - ye
+        ll = -0.5 * torch.einsum('ni,ij,nj->n', d, Ri, d)
+        ref = torch.softmax(ll, -1)
+        e = (q - ref).abs().max().item()
+        return e > 1e-9, 'relative_likelihood differs from the normalised Gaussian likelihoods N(y; ye_i, R) by %.3g for R=%s' % (e, R.tolist())
+
+    for ctx, (q, args, yes, ys) in run_paths(H, name, prog, max_paths=4):
+        hyp = H.hyps_of(ctx)
+        H.prove(name + '/two-exponentials', [], z3.BoolVal(len(args) == 2), replay=replay, key='C13/PF/likelihood')
+        if len(args) != 2:
+            continue
+        e_ = [[ys[c] - yes[2 * i + c] for c in range(2)] for i in range(2)]
+        quad = [z3.Sum([e_[i][a] * rat(Ri[a, b].item()) * e_[i][b] for a in range(2) for b in range(2)]) for i in range(2)]
+        want = -(quad[0] - quad[1]) / 2
+        d = (args[0] - args[1]) - want
+        tol = z3.RealVal('1/1000000000')
+        # (R^-1 enters as double-precision constants: agreement up to 1e-9 of the quadratic forms' size)
+        sz = 1 + quad[0] + quad[1]
+        H.prove(name + '/log(q0/q1)', hyp, z3.And(d <= tol * sz, d >= -tol * sz), replay=replay, key='C13/PF/likelihood', timeout=30)
+
+
 def run(H):
     H.assumptions += ['exact real arithmetic', 'P, Q, R symmetric positive definite (Cholesky-parametrised)',
                       'pinv of an invertible matrix is its inverse (LAPACK contract)', 'PF convergence at the Monte-Carlo rate is statistical: outside', 'PF.forward variance: standard model of floating-point arithmetic (|delta| <= u per arithmetic operation; no under/overflow)']
@@ -508,7 +555,7 @@ def run(H):
         except Exception as e:
             import traceback; traceback.print_exc()
             H.engine_error('%s n=%d p=%d' % (filt, n, p), e)
-    for f in ((lambda H: case_ekf_nonlinear(H, 1)), case_pf_cov, case_pf_forward_variance, (lambda H: case_pf_forward_variance(H, True)), case_ukf_history) + (() if H.quick else ((lambda H: case_ekf_nonlinear(H, 2)),)):
+    for f in ((lambda H: case_ekf_nonlinear(H, 1)), case_pf_cov, case_pf_likelihood, case_pf_forward_variance, (lambda H: case_pf_forward_variance(H, True)), case_ukf_history) + (() if H.quick else ((lambda H: case_ekf_nonlinear(H, 2)),)):
         try:
             f(H)
         except Exception as e:
